@@ -172,6 +172,8 @@ func runC03(c *Ctx) {
 		}
 		c.Check("C03-R2", "ciphertext-is-the-given-private-key", nma.Pos(), okEnc && prmIdx >= 0, "the stored private-key ciphertext is not the encryption of privKey.Serialize() of the given key")
 		c.Check("C03-R2", "private-key-under-private-crypto-key", nma.Pos(), okKey, "the address private key is not encrypted under the private crypto key")
+		// the same for every other place that fills the ciphertext fields (derive-on-unlock, loaders)
+		checkCiphertextFieldSlots(c, "C03-R2")
 		okPub := false
 		for _, call := range callsNamed(nma, "newManagedAddressWithoutPrivKey") {
 			okPub = fromParam(call.Call.Args[2], "PubKey")
